@@ -57,6 +57,11 @@ class DeblendMachine(Machine):
             'labels_repr': rng.pick(['plain', 'plain', 'array', 'tuple',
                                      'npint']),
             'nsched': rng.randint(4, 12),
+            # a label made of two detached regions (the documented result of
+            # merging labels with reassign_label, or a hand-built image)
+            'merge_labels': rng.chance(0.12),
+            # the result is deblended once more (two-call history)
+            'second_pass': rng.chance(0.3),
             'fault_tier': self.fault_tier,
             'det_connectivity': None,
         }
@@ -132,6 +137,10 @@ class DeblendMachine(Machine):
         else:
             arr = segm.data.copy()
         labs = _labels_of(arr)
+        if cfg.get('merge_labels') and len(labs) >= 2:
+            i, j = rng.sample(range(len(labs)), 2)
+            arr[arr == labs[j]] = labs[i]
+            labs = _labels_of(arr)
         if cfg['label_gaps'] and len(labs):
             # spread the labels: monotone map with gaps
             new = np.cumsum([rng.randint(1, 9) for _ in labs])
@@ -382,10 +391,29 @@ class DeblendMachine(Machine):
                 st.ntasks = 0
         else:
             st.ntasks = None
+        # a label made of detached regions that is itself a deblending
+        # candidate may make the library give up ("Deblending failed for
+        # source ...": its watershed cannot reproduce the segment); nothing
+        # in the statement forbids that.  As long as the label is *not* a
+        # candidate the call has to go through like any other.
+        detached_cand = False
+        if st.entry == 'deblend' and c.get('merge_labels') and \
+                c['contrast'] != 1:
+            from scipy import ndimage
+            struct = ndimage.generate_binary_structure(
+                2, 2 if c['connectivity'] == 8 else 1)
+            for l in cand:
+                if areas[int(l)] >= 2 * c['npixels'] and ndimage.label(
+                        st.in_arr == l, structure=struct)[1] > 1:
+                    detached_cand = True
+            st.stats.probe('detached_label_' + (
+                'candidate' if detached_cand else 'not_candidate'))
         if isinstance(out, Raised):
             st.stats.fault('task_error')
             st.stats.probe('serial_raises_' + out.type)
-            if not c['fault_tier']:
+            if not c['fault_tier'] and not (
+                    detached_cand and out.type == 'ValueError'
+                    and 'Deblending failed' in str(out.exc)):
                 # without a provoked fault the serial call must not raise
                 # for valid configurations, except for data-dependent
                 # errors the documentation names (connectivity mismatch is
@@ -412,6 +440,26 @@ class DeblendMachine(Machine):
             in_arr = st.in_arr
             labels_sel = st.labels
         self._refinement(st, in_arr, labels_sel, st.serial, out)
+        if st.entry == 'deblend' and c.get('second_pass') and \
+                st.serial['inverse_map'] and c['contrast'] != 1:
+            # two-call history: the result (which carries a deblend record)
+            # is the input of a second call; every clause applies to that
+            # call as to the first, and its input stays what it was
+            from photutils.segmentation import deblend_sources
+            d0 = self._segm_digest(out)
+            out2 = call(deblend_sources, st.data, out, c['npixels'],
+                        nlevels=c['nlevels'], contrast=c['contrast'],
+                        mode=c['mode'], connectivity=c['connectivity'],
+                        relabel=c['relabel'], nproc=1, progress_bar=False)
+            if self._segm_digest(out) != d0:
+                raise Violation('input_modified', 'segment_img',
+                                'second pass changed the first result')
+            if isinstance(out2, Raised):
+                st.stats.probe('second_pass_raised_' + out2.type)
+            else:
+                self._refinement(st, st.serial['data'], None,
+                                 self._observe(out2), out2)
+                st.stats.probe('second_pass_checked')
         if st.entry == 'deblend':
             # the caller goes on working with the result (a label
             # operation and an in-place clean-up): the input stays what it
